@@ -431,6 +431,21 @@ def r20b(P, R):
                     % ("skipped" if negated else "added only", sorted(exempt)), loc=loc)
         else:
             R.undecided("R20-b", "leading-dot:exempt", "the exemption test of the `./` prefix was not recognised", loc=loc)
+    # (9) path relations are computed component-wise: a *textual* prefix/suffix test on the string form of a path is not a path
+    # relation (`/a/gen` is a string prefix of `/a/gen-types/x` but not its ancestor)
+    textual = []
+    for x in relative.walk():
+        if x.get("k") == "MethodCall" and x["method"] in ("strip_prefix", "starts_with", "strip_suffix", "trim_start_matches", "find", "split_at", "get"):
+            rt = norm(x.get("recv_ty")) or ""
+            if ("str" in rt or "String" in rt or "OsStr" in rt) and "Path" not in rt:
+                a = pv.atoms(x["recv"]) | (pv.atoms(x["args"]) if x["args"] else frozenset())
+                if _side(a, p_from, p_to) and any(c[0] == "call" and c[1].split("::")[-1] in ("to_str", "to_string_lossy", "as_os_str", "to_string", "display", "into_os_string", "as_encoded_bytes", "to_owned")
+                                                   for c in a):
+                    textual.append(x["method"])
+    R.check("R20-b", "component-wise", not textual, "the relation between the two paths is computed on components",
+            "relative_path relates the two paths through `%s` on their *string* form: a textual prefix is not a path prefix (`/p/api` vs "
+            "`/p/api-schema/s.graphql` yields `./-schema/s.graphql`), so sibling directories sharing a name prefix resolve to the wrong file"
+            % (textual[0] if textual else ""), loc=loc)
     # (8) every component of the computed sequence reaches the result
     res_pushes = [x for x in relative.walk() if x.get("k") == "MethodCall" and x["method"] == "push" and "PathBuf" in (norm(x.get("recv_ty")) or "")]
     R.floor("R20-b", "pushes onto the result path", len(res_pushes), 1)
